@@ -22,7 +22,9 @@ B(var, val, cats, tab, ovr, why) == [k |-> "bind", var |-> var, val |-> val, cat
 X == [k |-> "exit"]
 ExtIndex(name) == CHOOSE i \in DOMAIN T.ext : T.ext[i] = name
 \* named rule OwnNameNotExternal: the function's own name is not prefetched
-Externals(fn) == SelectSeq(Facts(fn).ext, LAMBDA n : n # fn)
+\* every global the body reads, the function's own name included (recursion) - since fix 9b80e35; before it ptera left
+\* the own name out and this definition did too
+Externals(fn) == Facts(fn).ext
 EntrySteps(fn, arg) ==
   << B("#enter", TrueV, {"enter"}, TRUE, FALSE, "") >>
   \o [i \in DOMAIN Externals(fn) |-> B(Externals(fn)[i], ExtBase + ExtIndex(Externals(fn)[i]) - 1, {}, TRUE, TRUE, "ext")]
